@@ -665,7 +665,9 @@ func (t *terminal) handleCmdCSI(r escapeReader) bool {
 				paramCount = 1
 				params = paramStore[:paramCount]
 			}
-			t.screen().scroll(t.screen().CursorPos().Y, t.screen().BottomMargin(), params[0])
+			if y := t.screen().CursorPos().Y; y >= t.screen().TopMargin() && y <= t.screen().BottomMargin() {
+				t.screen().scroll(y, t.screen().BottomMargin(), params[0])
+			}
 
 		case 'M': // Delete lines, scroll up
 			if paramCount == 0 {
@@ -673,7 +675,9 @@ func (t *terminal) handleCmdCSI(r escapeReader) bool {
 				paramCount = 1
 				params = paramStore[:paramCount]
 			}
-			t.screen().scroll(t.screen().CursorPos().Y, t.screen().BottomMargin(), -params[0])
+			if y := t.screen().CursorPos().Y; y >= t.screen().TopMargin() && y <= t.screen().BottomMargin() {
+				t.screen().scroll(y, t.screen().BottomMargin(), -params[0])
+			}
 
 		case 'S': // Scroll up
 			if paramCount == 0 {
